@@ -566,4 +566,36 @@ example :
     docBodyBack d = true ∧ docInputsBack d = true ∧ namesOK d = true := by
   decide
 
+/-! ### FromV3Operation's search for a body parameter name (F-C17-15) -/
+
+/-- regression (F-C17-15, body-parameter half, fixed by c26cd6a; the input of corpus f15): an operation with a body
+    parameter and query parameters named `body` and `requestBody` converts back -/
+theorem nameClash_regression_body :
+    let b : Param2 Nat := { name := "payload", loc := "body", required := false, cons := {}, items := none,
+                            schema := some (.node { ty := some "object" } []) }
+    let q (n : String) : Param2 Nat := { name := n, loc := "query", required := false, cons := { ty := some "string" },
+                                          items := none, schema := none }
+    let d : Doc2 Nat := { loc := { host := "", basePath := "", schemes := [] }, consumes := [], produces := [],
+                          params := [], responses := [], defs := [], secs := [],
+                          paths := [{ path := "/x", params := [],
+                                      ops := [{ method := "post", opId := "p", consumes := [], produces := [],
+                                                params := [.val b, .val (q "body"), .val (q "requestBody")], responses := [] }] }] }
+    (match toV3 d with | .ok d3 => (match fromV3Full d3 with | .ok _ => true | _ => false) | .error _ => false) = true := by
+  decide
+
+/-- witness (F-C17-15, what is left): the request body formDataBody builds carries no `x-originalParamName`, so the
+    same operation with a form parameter instead of the body parameter still makes FromV3 fail -/
+theorem nameClash_witness_form :
+    let f : Param2 Nat := { name := "f", loc := "formData", required := false, cons := { ty := some "string" },
+                            items := none, schema := none }
+    let q (n : String) : Param2 Nat := { name := n, loc := "query", required := false, cons := { ty := some "string" },
+                                          items := none, schema := none }
+    let d : Doc2 Nat := { loc := { host := "", basePath := "", schemes := [] }, consumes := [], produces := [],
+                          params := [], responses := [], defs := [], secs := [],
+                          paths := [{ path := "/x", params := [],
+                                      ops := [{ method := "post", opId := "p", consumes := ["multipart/form-data"], produces := [],
+                                                params := [.val f, .val (q "body"), .val (q "requestBody")], responses := [] }] }] }
+    (match toV3 d with | .ok d3 => (match fromV3Full d3 with | .error => true | _ => false) | .error _ => false) = true := by
+  decide
+
 end KinModel.Conv
